@@ -80,6 +80,25 @@ def replay_root(model, deviation=False, family=False, grid=False, low=False):
     return worst is not None, (worst or {"what": "returned Z is a root at every replayed point", "inputs": m})
 
 
+def replay_bracket(model):
+    """Real z_factor_DAK over the validity rectangle, corners included (T_r 1.05 .. 3, p_r up to 30): it must return a Z
+    for every state - a root finder whose bracket misses the root raises instead."""
+    from bluebonnet.fluids import gas
+    m = model_floats(model, ["Tr", "pr", "TpcR", "ppc"], default=dict(Tr=1.05, pr=30.0, TpcR=380.0, ppc=650.0))
+    pts = [m] + [dict(m, Tr=a, pr=b) for a in (1.05, 1.1, 1.2, 1.5, 2.0, 3.0) for b in (0.01, 0.1, 1.0, 5.0, 15.0, 24.0, 28.0, 30.0)]
+    for q in pts:
+        if not (1.05 <= q["Tr"] <= 3.0 and 0 < q["pr"] <= 30.0):
+            continue
+        T_, p_, Tpc, ppc = _real_inputs(q)
+        try:
+            z = float(gas.z_factor_DAK(T_, p_, Tpc, ppc))
+        except Exception as ex:  # noqa: BLE001
+            return True, {"what": f"z_factor_DAK(T={T_:.6g}, p={p_:.6g}, Tpc={Tpc:.6g}, ppc={ppc:.6g}) (T_r={q['Tr']}, p_r={q['pr']}) raised {ex!r}", "inputs": q}
+        if not (z > 0 and math.isfinite(z)):
+            return True, {"what": f"z_factor_DAK at T_r={q['Tr']}, p_r={q['pr']} returned {z!r}", "inputs": q}
+    return False, {"what": "a finite positive Z at every replayed state of the rectangle", "inputs": m}
+
+
 def replay_tolerance(model):
     """Real z_factor_DAK at low pressures of the witness' gas: the returned Z must still be a root (relative residual)."""
     from bluebonnet.fluids import gas
@@ -138,7 +157,7 @@ def job_dak(job):
         if pr_.exc is not None:
             # the root-finder's precondition failed on this path: is it reachable inside the rectangle?
             v = job.prove(f"dak/bracket-can-fail[path{k}]", pr_.pc, bound="rectangle", timeout=min(job.timeout, 60),
-                          expect="info")
+                          expect="info", replay=replay_bracket)
             continue
         z, mins, brs = pr_.value
         pc = pr_.pc
@@ -190,7 +209,7 @@ def job_dak(job):
                       replay=replay_tolerance, note=f"xtol={float(xtol)!r}, rtol={float(rtol)!r}, smallest admissible root = lower bracket end")
             same = brs[0]["same_sign"]
             job.prove("dak/bracket-precondition-can-fail", dom + [same.node if hasattr(same, "node") else T.b_const(bool(same))],
-                      bound="rectangle", timeout=(10 if job.tier == "quick" else 120), expect="info",
+                      bound="rectangle", timeout=(10 if job.tier == "quick" else 120), expect="info", replay=replay_bracket,
                       note="ValueError path of the root finder inside the validity rectangle; 'unknown' = undecided")
             job.prove("dak/root[published]", pc + [off_root(F_pub)], bound="rectangle",
                       replay=(replay_root, {"deviation": False}), finding="C06-dak-first-coefficient")
